@@ -23,17 +23,30 @@ def wordCountOf (andx : Bool) (rawP : Bytes) : Nat := andxWords andx + (rawP.len
 /-- the default AndX block a command creates when none is set: NO_ANDX_COMMAND, reserved 0, offset 0 -/
 def andxBytes (andx : Bool) : Bytes := if andx then [0xFF, 0x00, 0x00, 0x00] else []
 
-/-- `WordCount` byte, then all the words unless the (truncated) count is zero -/
-def paramBlock (andx : Bool) (rawP : Bytes) : Bytes :=
+/-- the two AndX words on the wire: `AndX.GetParameters()` = `[command<<8 | reserved, offset]`, each added with
+    `AddWord` and written by `Parameters.Marshal` high byte first — so the offset goes out big-endian -/
+def andxBytesOf (andx : Bool) (env : Env) : Bytes :=
+  if andx then
+    match env.get andxField with
+    | some (.ns [c, r, o]) => [UInt8.ofNat c, UInt8.ofNat r, UInt8.ofNat (o / 256), UInt8.ofNat (o % 256)]
+    | _ => andxBytes true
+  else []
+
+/-- the fields a round trip is about: the declared ones and, for an AndX command, its AndX block -/
+def Cmd.roundTripFields (c : Cmd) : List String := c.fields.map (·.1) ++ (if c.isAndX then [andxField] else [])
+
+/-- `WordCount` byte, then all the words (`ax`: the AndX words, already in the block when the raw stream is added)
+    unless the (truncated) count is zero -/
+def paramBlock (andx : Bool) (ax : Bytes) (rawP : Bytes) : Bytes :=
   let wc := wordCountOf andx rawP % 256
-  UInt8.ofNat wc :: (if wc > 0 then andxBytes andx ++ wordsBytes rawP else [])
+  UInt8.ofNat wc :: (if wc > 0 then ax ++ wordsBytes rawP else [])
 
 /-- `ByteCount` (uint16 of the length, little-endian) then all the bytes -/
 def dataBlock (rawD : Bytes) : Bytes := natLe 2 (rawD.length % 65536) ++ rawD
 
 def encodeCmd (C : Codecs) (c : Cmd) (env : Env) : Outcome Bytes :=
   match runM C c env with
-  | .ok s => .ok (s.head ++ paramBlock c.isAndX s.P ++ dataBlock s.D)
+  | .ok s => .ok (s.head ++ paramBlock c.isAndX (andxBytesOf c.isAndX (prologueEnv c.isAndX env)) s.P ++ dataBlock s.D)
   | .err => .err
   | .panic => .panic
 
@@ -427,7 +440,7 @@ def bodyU (c : Cmd) : Option (List UStmt) := if c.isAndX then splitAndX c.unmars
 /-- C04 static predicate: both programs are straight-line, describe the same slots per block in the
     same order (`mirrorSlots`), and the unmarshal program of an AndX command consumes the AndX words
     the marshal prologue emits before it reads the first field (`bodyU`); moreover — the side conditions without which the round trip is not a theorem —
-    Marshal does not change a field after emitting it (`stableM`), Unmarshal keeps the offset
+    Marshal does not change a field after emitting it (`stableM`) and never the AndX block, Unmarshal keeps the offset
     discipline, reads lengths before the buffers they describe, guards no more than it reads
     (`okU`), and every declared field is on the wire. -/
 def Mirror (c : Cmd) : Bool :=
@@ -437,8 +450,8 @@ def Mirror (c : Cmd) : Bool :=
     match layoutM c.marshal, layoutU body with
     | some m, some u =>
       mirrorSlots m u &&
-      stableM c.marshal &&
-      okU (!(u.filter (·.blk == .P)).isEmpty) (!(u.filter (·.blk == .D)).isEmpty) {} [] body &&
+      stableM c.marshal && c.marshal.all (fun s => s.modifies != some andxField) &&
+      okU (!(u.filter (·.blk == .P)).isEmpty) (!(u.filter (·.blk == .D)).isEmpty) {} (if c.isAndX then [andxField] else []) body &&
       (c.fields.map (·.1)).all (fun f => (u.map Slot.field).contains f)
     | _, _ => false
 
@@ -482,7 +495,7 @@ def slotAt (f : String) : List Slot → Nat → Option (Nat × Nat)
     when the marshal program is straight-line, exactly one statement touches the field, and only
     fixed-width slots precede it in the parameter block (then the offset does not depend on values) -/
 def slotRange (c : Cmd) (f : String) : Option (Nat × Nat) :=
-  if (c.marshal.filter (·.mentions f)).length != 1 then none else
+  if f == andxField || (c.marshal.filter (·.mentions f)).length != 1 then none else
   match layoutM c.marshal with
   | none => none
   | some m =>
@@ -629,8 +642,17 @@ def relationsHold (C : Codecs) (env : Env) (plen : Nat) : (pad : Nat) → List U
   | pad, .ifWordCount _ body :: r => relationsHold C env plen pad body && relationsHold C env plen pad r
   | pad, _ :: r => relationsHold C env plen pad r
 
+/-- the AndX block an AndX command goes out with (the one set, or the default of the prologue) is a
+    command byte, a reserved byte and a 16-bit offset -/
+def andxOk (andx : Bool) (env : Env) : Bool :=
+  !andx ||
+  (match (prologueEnv andx env).get andxField with
+    | some (.ns [c, r, o]) => c < 256 && r < 256 && o < 65536
+    | _ => false)
+
 /-- C04 "internally consistent" -/
 def consistent (C : Codecs) (c : Cmd) (env : Env) : Bool :=
+  andxOk c.isAndX env &&
   match runM C c env with
   | .ok s =>
     intsFit s.env c.marshal && relationsHold C s.env s.P.length 0 c.unmarshal &&
@@ -705,10 +727,20 @@ def knownRt (c : Cmd) : String :=
   | some k => k.key ++ ":" ++ c.name
   | none => ""
 
+/-- C05 finding `be:AndXOffset`: the AndX block the command holds has an offset whose two bytes differ — the
+    AndX words are written as 16-bit words, high byte first (`AndX.GetParameters`, `Parameters.Marshal`;
+    the repository's andx tests pin `AndX.Marshal`/`Unmarshal` to the same byte order), MS-CIFS has
+    AndXOffset little-endian -/
+def andxOffsetBigEndian (andx : Bool) (env : Env) : Bool :=
+  andx && (match env.get andxField with
+    | some (.ns [_, _, o]) => o / 256 % 256 != o % 256
+    | _ => false)
+
 /-- known C05 findings: a nested value whose Go encoder is big-endian (`SMB_FILE_ATTRIBUTES`, pinned
     by the repository's own tests) inside this command -/
 def knownEnc (c : Cmd) (env : Env) : String :=
-  if c.marshal.any (fun s => match s with | .sub _ _ "SMB_FILE_ATTRIBUTES" => true | _ => false) then "be:SMB_FILE_ATTRIBUTES"
+  if andxOffsetBigEndian c.isAndX env then "be:AndXOffset"
+  else if c.marshal.any (fun s => match s with | .sub _ _ "SMB_FILE_ATTRIBUTES" => true | _ => false) then "be:SMB_FILE_ATTRIBUTES"
   -- buffer format 0x03 is written as `03 len16 bytes 00` (MS-CIFS: `03 bytes 00`)
   else if c.marshal.any (fun s => match s with
       | .sub _ f "SMB_STRING" => (match env.get f with | some (.t (3 :: _, _)) => true | _ => false)
